@@ -30,6 +30,7 @@ type Finding struct {
 	ExcludeKinds []string `json:"exclude_kinds,omitempty"`
 	WitnessPkg   string   `json:"witness_pkg"`
 	WitnessFile  string   `json:"witness_file"`
+	WitnessExpect string  `json:"witness_expect,omitempty"` // output substring that counts as reproduced (crashing witnesses)
 	Text         string   `json:"text"`
 }
 
@@ -55,6 +56,7 @@ type Env struct {
 	Raw         map[string]json.RawMessage
 	Findings    *Findings
 	FuncTables  map[string]*symex.FuncTable
+	RegexpSubexp map[string]int
 	Tier        string
 	Seed        int
 	Scratch     string
@@ -152,6 +154,17 @@ func SetupEnv(repo, verif, tier string, seed int, pkgs []string) (*Env, error) {
 		return nil, fmt.Errorf("tables: %v", err)
 	}
 	env.Tables, env.Raw = tb, raw
+	env.RegexpSubexp = map[string]int{}
+	for k, rawv := range raw {
+		if strings.HasSuffix(k, ".regexpSubexp") {
+			m := map[string]int{}
+			if json.Unmarshal(rawv, &m) == nil {
+				for name, n := range m {
+					env.RegexpSubexp[strings.TrimSuffix(k, "regexpSubexp")+name] = n
+				}
+			}
+		}
+	}
 	env.FuncTables = map[string]*symex.FuncTable{}
 	for rel, sp := range prog.ByRel {
 		for k, v := range symex.ExtractFuncTables(sp, rel) {
@@ -324,6 +337,9 @@ func Run(id, repo, verif, tier string, seed int, writeBaseline bool) int {
 				src, err := os.ReadFile(filepath.Join(verif, kf.WitnessFile))
 				if err == nil {
 					out, rep := runReplay(env.Repo, kf.WitnessPkg, string(src), env.Scratch)
+					if !rep && kf.WitnessExpect != "" && strings.Contains(out, kf.WitnessExpect) {
+						rep = true
+					}
 					if rep {
 						fmt.Printf("KNOWN-FINDING: property=%s %s\n", id, kf.Text)
 						knownSeen = append(knownSeen, f.name+": "+kf.Text)
